@@ -26,15 +26,15 @@ CLAIMED = {
    design="6/C13", engine="coq-tk",
    technique="Coq proof (register invariant + trace refinement by induction over layers) + exact correspondence vs pytket export/import + simulation oracles"),
  "C12": dict(
-   text="20 theorems over the abstract *-ring (executed in Cyc32) about a Gallina model of cqmap.CQMap and cqmap.Functor: "
+   text="22 theorems over the abstract *-ring (executed in Cyc32) about a Gallina model of cqmap.CQMap and cqmap.Functor: "
         "every well-typed pure circuit evaluates mixed to the doubled map conj(U) (x) U of its pure evaluation (per box and "
         "through CQMap.tensor); CQMap.measure has the Born closed form for every n, measuring a doubled state gives "
         "conj(a) a; discard is the trace / marginal; Encode = Measure-dagger and MixedState = Discard-dagger for all flag "
         "combinations with transposed types; box images have the images of the declared types; trace preservation is the "
         "discard law, holds for unitaries (C11), preparations, stochastic classical gates, Copy, destructive Measure, "
         "Discard, constructive Encode and swaps, is closed under tensor and then, hence for every well-typed circuit of "
-        "such boxes, and get_counts entries sum to 1.  Partial: the swap network of CQMap.tensor equals its closed form "
-        "only by correspondence; non-destructive Measure trace preservation and non-negativity by oracle.  Tie to /repo: "
+        "such boxes, and get_counts entries sum to 1.  The swap network of CQMap.tensor as coded equals the Kronecker "
+        "closed form on every sector, for all maps and type shapes.  Partial: non-destructive Measure trace preservation and non-negativity by oracle.  Tie to /repo: "
         "exact Cyc32 vs eval(mixed=True) at 1e-9, doubling / Born / counts / adjointness oracles.",
    design="6/C12", engine="coq-cq",
    technique="Coq proof (abstract *-ring, induction on layers) + correspondence vs mixed evaluation + Born-rule oracles"),
@@ -118,7 +118,7 @@ CLAIMED = {
    design="6/C18", engine="coq-grammar",
    technique="Coq proof (induction on slash types, parser loop invariants) + extracted-model correspondence + oracles"),
  "C07": dict(
-   text="22 theorems about a Gallina model of rewriting.snake_removal (follow_wire, find_snake, unsnake with its "
+   text="26 theorems about a Gallina model of rewriting.snake_removal (follow_wire, find_snake, unsnake with its "
         "index bookkeeping, the outer loop, then monoidal normalize): every yielded step of every prefix of the trace "
         "and the normal form are well-typed with the input's domain and codomain; follow_wire returns the consumer of "
         "the wire and the passed boxes; find_snake returns None iff no cap leg runs straight into the opposite leg of a "
@@ -128,12 +128,14 @@ CLAIMED = {
         "record, and the untyped rigid_laws formulation) one unsnake call, every prefix of the snake-removal trace and "
         "the rigid normal form denote the same morphism as the input, for arbitrary obstructions (wire-following "
         "invariant preserved by every interchange; cap and cup end adjacent at offsets +-1; the deletion is never "
-        "refused), with non-trivial instances (qubit tensors over Z[i], counting model).  PARTIAL: "
-        "totality (only NotImplementedError) is proved for obstruction-free snakes only - what is missing is that every "
-        "interchange requested by the loops is legal; the check covers it with exception classes and exact integer "
-        "tensor functors on every yielded step.  Tie to /repo: whole traces compared with the extracted model.",
+        "refused), with non-trivial instances (qubit tensors over Z[i], counting model); TOTALITY: for arbitrary "
+        "obstructions every interchange requested by the loops of unsnake is legal (the followed wire separates the "
+        "boxes being exchanged), so snake removal never raises and the rigid normal form only ever fails with "
+        "NotImplementedError (or the model's fuel bound).  The check adds exception classes and exact integer "
+        "tensor functors on every yielded step of the implementation.  Tie to /repo: whole traces compared with the "
+        "extracted model.",
    design="6/C07", engine="coq-snake",
-   technique="Coq proof (typing, wire-following invariant, semantic soundness in every rigid category) + trace correspondence + exact tensor-semantics oracle"),
+   technique="Coq proof (typing, wire-following invariant, totality, semantic soundness in every rigid category) + trace correspondence + exact tensor-semantics oracle"),
  "C04": dict(
    text="9 theorems about the Gallina model of monoidal.Functor/rigid.Functor application (finite object and box "
         "tables; Swap, Cup, Cap and daggered boxes mapped as the code does): images are well-typed from F(dom) to "
